@@ -58,6 +58,7 @@ structure Step where
   only : Only
   apps : AppsCfg
   disk : List File
+  fresh : Bool := false     -- the integration was unloaded and set up again: no context is loaded before this reload
 
 def step? : Sexp → Option Step
   | .list [o, a, d] => do
@@ -65,6 +66,12 @@ def step? : Sexp → Option Step
     let apps ← Sexp.listOf? app? a
     let disk ← Sexp.listOf? file? d
     pure { only := only, apps := apps, disk := disk }
+  | .list [o, a, d, f] => do
+    let only ← only? o
+    let apps ← Sexp.listOf? app? a
+    let disk ← Sexp.listOf? file? d
+    let fr ← f.bool?
+    pure { only := only, apps := apps, disk := disk, fresh := fr }
   | _ => none
 
 def showCtx (c : Ctx) : String :=
@@ -82,7 +89,8 @@ def progOf (tbl : List (Nat × List Imp)) (s : Nat) : List Imp := (tbl.lookup s)
 
 def runSteps (prog : Nat → List Imp) : St → List Step → List String → List String
   | _, [], acc => acc.reverse
-  | st, s :: rest, acc =>
+  | st0, s :: rest, acc =>
+    let st : St := if s.fresh then { st0 with ctxs := [] } else st0
     let loaded := sortCtxs (st.ctxs.filter (fun c => isScriptCtx c.name))
     let st' := reload (loaded.length + 2) (s.disk.length + 2) loadRows s.apps s.disk prog s.only st
     let evs := st'.events.drop st.events.length
